@@ -357,6 +357,23 @@ class Render:
 def render(prog, decls=True):
     R = Render()
     for s in prog:
+        if s[0] == "cbr":
+            # unstructured control flow at function level: the entry block branches to one of two blocks, both continue
+            # in a join block (only as the last statement of a program: the join block holds what follows)
+            _, j, tb, eb, tail = s
+            before = dict(R.last_state)
+            R.emit(f"cf.cond_br %c{j}b, ^bbt, ^bbe", 2)
+            for lbl, blk in (("^bbt", tb), ("^bbe", eb)):
+                R.lines.append(f"  {lbl}:")
+                R.last_state = dict(before)
+                for b in blk:
+                    R.stmt(b, 2)
+                R.emit("cf.br ^bbj", 2)
+            R.lines.append("  ^bbj:")
+            R.last_state = {}
+            for b in tail:
+                R.stmt(b, 2)
+            break
         R.stmt(s, 2)
     body = "\n".join(R.lines)
     return f"""builtin.module {{
@@ -433,6 +450,8 @@ def has_cfg(prog):
             return True
         if s[0] == "if" and (has_cfg(s[2]) or (s[3] is not None and has_cfg(s[3]))):
             return True
+        if s[0] == "cbr" and (has_cfg(s[2]) or has_cfg(s[3]) or has_cfg(s[4])):
+            return True
     return False
 
 
@@ -445,6 +464,8 @@ def count_cfg(prog):
             n += count_cfg(s[2])
         elif s[0] == "if":
             n += count_cfg(s[2]) + (count_cfg(s[3]) if s[3] is not None else 0)
+        elif s[0] == "cbr":
+            n += count_cfg(s[2]) + count_cfg(s[3]) + count_cfg(s[4])
     return n
 
 
@@ -578,6 +599,13 @@ def program_set(tier, seed, want_calls=True):
                     add((("cfg", "acc1", pt), ("for", "args", body)))
                     if not quick:
                         add((("cfg", "acc1", pw), ("for", "c01", body)))
+    # a function body of several blocks: configurations in the two successor blocks, one behind the join
+    for pt in range(3):
+        for pe in range(3):
+            for pj in range(3):
+                if pt != pe:
+                    add((("cfg", "acc1", pj), ("cbr", 0, (("cfg", "acc1", pt),), (("cfg", "acc1", pe),), (("cfg", "acc1", pj),))))
+                    add((("cbr", 1, (("cfg", "acc1", pt),), (("cfg", "acc1", pe),), (("cfg", "acc1", pt), ("cfg", "acc1", pj))),))
     # a value of the next configuration computed between a launch and its await
     for p_ in range(3):
         add((("cfgk", "acc1", p_, 5),))
@@ -774,6 +802,20 @@ def machine_handlers(M: Machine):
     def h_accel(I, op):
         return None
 
+    def h_br(I, op):
+        blk = op.successor
+        for a, v in zip(blk.args, [I.get(o) for o in op.operands]):
+            I.set(a, v)
+        return I.run_block(blk)
+
+    def h_cond_br(I, op):
+        c = I.get(op.cond)
+        taken = eng().branch(irsym.bv2b(c) if not I.intmode else c != 0)
+        blk = op.then_block if taken else op.else_block
+        for a, v in zip(blk.args, [I.get(o) for o in (op.then_arguments if taken else op.else_arguments)]):
+            I.set(a, v)
+        return I.run_block(blk)
+
     def h_marked(I, op):
         # an arbitrary op: reprograms the accelerators iff it is marked so
         from snaxc.dialects import accfg
@@ -803,7 +845,7 @@ def machine_handlers(M: Machine):
 
     return {
         "accfg.setup": h_setup, "accfg.launch": h_launch, "accfg.await": h_await, "func.call": h_call,
-        "llvm.call": h_call, "test.op": h_marked,
+        "llvm.call": h_call, "test.op": h_marked, "cf.br": h_br, "cf.cond_br": h_cond_br,
         "accfg.accelerator": h_accel, "@for_iter": h_for_iter, "@for_exit": h_for_exit, "@if_exit": h_if_exit,
     }
 
